@@ -25,8 +25,12 @@ import time
 import traceback
 
 VERIF = os.path.dirname(os.path.dirname(os.path.abspath(__file__)))
-EVIDENCE_DIR = os.path.join(VERIF, 'evidence')
-REPLAY_DIR = os.path.join(VERIF, 'replays')
+# runs against a scratch tree (VERIF_REPO, used only by tools/ when trying a
+# seeded change) write their evidence / replays elsewhere so that the
+# evidence of /repo itself is never overwritten by them
+_OUT = os.environ.get('VERIF_OUT') or VERIF
+EVIDENCE_DIR = os.path.join(_OUT, 'evidence')
+REPLAY_DIR = os.path.join(_OUT, 'replays')
 KNOWN_FILE = os.path.join(VERIF, 'known_findings.json')
 
 
